@@ -96,7 +96,7 @@ func c04Case(c *core.Ctx, pc parseCase) {
 func init() {
 	core.Register(&core.Check{
 		ID:   "C04",
-		Rule: "cases = known-finding witnesses ++ PRNG mix of {hostile G3 inputs, corpus snippets, line-terminator rewrites (LF/CRLF/CR/mixed) of corpus snippets and generated programs, block-crossing concatenations, generated programs in PRNG trivia layouts} x PRNG version; every returned tree is walked: value/offset/line/order checks always, tiling + free-floating classification + leaf values when no error was delivered; non-trivial = the tree holds >= 3 significant tokens; distinct by (input bytes, version)",
+		Rule: "cases = known-finding witnesses ++ PRNG mix of {hostile G3 inputs, corpus snippets, line-terminator rewrites (LF/CRLF/CR/mixed) of corpus snippets and generated programs, block-crossing concatenations, generated programs in PRNG trivia layouts} x PRNG version; every returned tree is walked: value/offset/line/order checks always, tiling + free-floating classification + no blanks at the ends of significant tokens + leaf values when no error was delivered; the token-order verdict of the online hook counts; the tree of the previous parse is fingerprinted again after each parse; non-trivial = the tree holds >= 3 significant tokens; distinct by (input bytes, version)",
 		Assumptions: []string{
 			"reference line counter: a line ends after LF, after CRLF and after a CR not followed by LF",
 			"tree order of tokens = struct field order with separator lists interleaved with the list they follow (the printer's contract, C15)",
